@@ -69,9 +69,11 @@ impl<T: Sized> Drop for JoinHandle<T> {
                 futex_wait_fast(self.tsm.get_futex(), UNFINISHED);
                 #[cfg(feature = "verif-hooks")]
                 crate::verif::gate(crate::verif::DROP_BEFORE_FREE_BLOCK, self.tsm.0 as usize);
-                // Nobody will take the thread's return value, run its destructor
-                core::ptr::drop_in_place(self.tsm.value_mut::<T>());
+                // Nobody will take the thread's return value, run its destructor, but only after
+                // the block is released, a destructor that panics ends this thread right there
+                let val = core::ptr::read(self.tsm.value_mut::<T>());
                 self.tsm.dealloc();
+                drop(val);
             }
         }
     }
